@@ -142,6 +142,6 @@ def jobs(tier):
         k = 8
     js = []
     for i, (V, cs, h) in enumerate(scs):
-        js.append(Job('scenario%04d' % i, 'C07_sat.cpp', 'h_sat', SAT_UNITS, 24, params=scen(V, cs, h), timeout=120,
+        js.append(Job('scenario%04d' % i, 'C07_sat.cpp', 'h_sat', SAT_UNITS, 48, params=scen(V, cs, h), timeout=120,
                       desc=fmt(V, cs, h), bounds={'vars': V, 'clauses': len(cs), 'history': len(h)}))
     return batch(js, k)
